@@ -296,11 +296,17 @@ def known_bitmasked_range_form(case, vio):
     """Form::getitem_range() is the identity for every form but BitMaskedForm, yet RegularArray / RecordArray / ByteMaskedArray / UnmaskedArray
     slice their contents: a BitMaskedArray below them becomes a ByteMaskedArray, which the predicted form of the lazy slice does not say"""
     text = _observed_text(vio)
-    if not (case.get("part") == "virtual" and vio.get("bucket", "").startswith("errorclass:") and NOT_CONFORM in text):
+    if not (vio.get("bucket", "").startswith("errorclass:") and NOT_CONFORM in text):
         return False
     expected, _, generated = text.partition("but generated:")
+    if case.get("part") in ("virtual", "pvirtual"):
+        descs = [case["desc"]]
+    elif case.get("part") == "partition":
+        descs = [D.strip_virtual(d) for d in case["pieces"] if d["class"] == "VirtualArray"]
+    else:
+        return False
     return ('"BitMaskedArray"' in expected and '"ByteMaskedArray"' in generated
-            and K.any_node(case["desc"], lambda n: n["class"] == "BitMaskedArray"))
+            and any(K.any_node(d, lambda n: n["class"] == "BitMaskedArray") for d in descs))
 
 
 def known_nested_virtual_slice_form(case, vio):
@@ -637,11 +643,10 @@ def _run_virtual(case, run):
             # NumpyArray::getitem(Slice), a runtime_error, where the eager getitem_field raises invalid_argument)
             tags.append("error_class_differs")
             continue
-        if (ek == "ValueError" and vk == "ok" and not all_forms_declared and op in ("sort", "argsort")
-                and "array with strings can only be sorted with axis=-1" in (emsg or "")):
-            # the refusal is decided by purelist_parameter("__array__") of an outer node; below it sits a VirtualArray without a declared
-            # form, which answers "unknown" rather than materialise (the documented price of not declaring a form, as for op "purelist")
-            tags.append("refusal_needs_declared_form")
+        if ek == "ValueError" and vk == "ok" and op in ("sort", "argsort") and "array with strings can only be sorted with axis=-1" in (emsg or ""):
+            # the eager array refuses (there is no value to compare with); the refusal is decided by purelist_parameter("__array__") of an outer
+            # node, which a VirtualArray below it answers from its (declared, inferred, sliced or unknown) form without materialising
+            tags.append("string_sort_refusal_not_compared")
             continue
         if vk != ek:
             raise Violation("errorclass:" + bucket_tail, "%s: eager twin gives %s, virtual twin gives %s" % (op, ek, vk),
@@ -760,6 +765,17 @@ def check_partitioned(p, expected, what):
 
 
 def run_partition(case):
+    try:
+        return _run_partition(case)
+    except ValueError as e:
+        if NOT_CONFORM in str(e) and any(d["class"] == "VirtualArray" for d in case["pieces"]):
+            # reading a lazy partition (or a lazy slice of one) fails although its generator is correct
+            raise Violation("errorclass:partition|lazy_read", "a read of a partitioned array with lazy partitions fails where the concatenated array answers",
+                            expected="ok", observed=["ValueError", str(e)])
+        raise
+
+
+def _run_partition(case):
     real_pieces = case["pieces"]
     pieces = [D.strip_virtual(d) for d in real_pieces]       # what the model reads
     T = M.decode(pieces[0])[0]
